@@ -31,6 +31,22 @@ POOL = [
     ("'a' + 'b' + 'c' three runs", [("a", A1), ("b", A2), ("c", A3)]),
     ("'e' + combining acute red + 'xy' on blue bold", [("e\u0301", A1), ("xy", A2)]),
 ]
+def _piece(k):
+    def build(it):
+        parent = _look(it, mk(it, ("ab\n", A1), ("cd\r\nef", A2)))
+        r = it.callm(parent, "splitlines", True)
+        if r[0] != "ok" or not isinstance(r[1], list) or len(r[1]) <= k:
+            raise AnalysisError("splitlines(True) of the parent value gives %s" % (r,))
+        return r[1][k]
+    return build
+
+
+# receivers arrived at through a history: (label, builder, number of characters)
+DERIVED = [
+    ("line 0 of ('ab\\n' red + 'cd\\r\\nef' on blue bold, looked at).splitlines(True)", _piece(0), 3),
+    ("line 1 of ('ab\\n' red + 'cd\\r\\nef' on blue bold, looked at).splitlines(True)", _piece(1), 4),
+]
+
 NEW = [("''", ""), ("'xy'", "xy"), ("'X' bold on blue", [("X", A2)]), ("'x' red + 'Y' underlined", [("x", A1), ("Y", A3)]),
        ("an empty FmtStr", [("", {})]), ("a FmtStr without runs", []),
        # plain strs that are not ordinary text: they are still unformatted characters, inserted as they are
@@ -58,8 +74,8 @@ def check(src, rep):
             for j in range(i, 6):
                 POOL.append(("'abcde' cut at %d and %d" % (i, j), [("abcde"[:i], A1), ("abcde"[i:j], A2), ("abcde"[j:], A3)]))
     jobs = []
-    for pi, (_, runs) in enumerate(POOL):
-        n = sum(len(t) for t, _ in runs)
+    for pi, (_, runs) in enumerate(POOL + [(d[0], d) for d in DERIVED]):
+        n = sum(len(t) for t, _ in runs) if isinstance(runs, list) else runs[2]
         for ni in range(len(NEW)):
             for star in ("", "*"):       # *: receiver and new value have been looked at (views memoised) before the call
                 for start in range(0, n + 3):
@@ -67,15 +83,31 @@ def check(src, rep):
                     for end in range(start, n + 3):
                         jobs.append(("splice" + star, pi, ni, start, end))
                 jobs.append(("append" + star, pi, ni, None, None))
+            if isinstance(runs, list) and len(runs) >= 2 and ni in (1, 2):
+                # @: another splice was made on the same receiver just before
+                for start in range(0, n + 1):
+                    jobs.append(("insert@", pi, ni, start, None))
+                    jobs.append(("splice@", pi, ni, start, min(n, start + 1)))
+                jobs.append(("append@", pi, ni, None, None))
 
     def one(job):
         kind, pi, ni, start, end = job
         looked = kind.endswith("*")
-        kind = kind.rstrip("*")
-        label, runs = POOL[pi]
+        earlier = kind.endswith("@")
+        kind = kind.rstrip("*@")
+        label, runs = (POOL + [(d[0], d) for d in DERIVED])[pi]
         nlabel, new = NEW[ni]
         try:
-            v = mk(it, *runs)
+            if isinstance(runs, list):
+                v = mk(it, *runs)
+            else:
+                v = runs[1](it)
+                runs = runs_of(v)
+            if earlier:
+                n_ = sum(len(t) for t, _ in runs)
+                it.callm(v, "splice", "Q", max(0, n_ - 1))
+                it.callm(v, "splice", "Q", n_, n_)
+                label += ", after two other splices near the end of the same receiver"
             nv = new if isinstance(new, str) else mk(it, *new)
             if looked:
                 _look(it, v)
